@@ -12,13 +12,18 @@ pub mod c11;
 pub mod c12;
 pub mod c13;
 pub mod c18;
+pub mod c19;
 pub mod c20;
 pub mod c24;
 pub mod c25;
 pub mod c26;
 pub mod c27;
 pub mod c28;
+pub mod c29;
+pub mod c30;
+pub mod c31;
 pub mod c32;
+pub mod c37;
 pub mod c38;
 pub mod c40;
 pub mod docpool;
@@ -70,6 +75,7 @@ pub fn run(prop: &str, args: &Args) -> i32 {
         "C13" => c13::run_c13(args),
         "C14" => c13::run_c14(args),
         "C18" => c18::run(args),
+        "C19" => c19::run(args),
         "C20" => c20::run_c20(args),
         "C21" => c20::run_c21(args),
         "C22" => c20::run_c22(args),
@@ -78,7 +84,11 @@ pub fn run(prop: &str, args: &Args) -> i32 {
         "C26" => c26::run(args),
         "C27" => c27::run(args),
         "C28" => c28::run(args),
+        "C29" => c29::run(args),
+        "C30" => c30::run(args),
+        "C31" => c31::run(args),
         "C32" => c32::run(args),
+        "C37" => c37::run(args),
         "C38" => c38::run(args),
         "C40" => c40::run(args),
         _ => {
